@@ -113,3 +113,41 @@ Check ex_reads.                 (* every escape kind, surrogate pairs, odd white
 Check rej_lone_leading.
 Check rej_leading_zero.
 Check rej_depth.
+
+(** ** ... with the depth hypothesis on the GRAPH (proofs/JsonReadDepth.v): the regenerated document nests at most [depth_bound g]
+    levels = 3 per named node + one per other node per named type written so far + 1 (shared unnamed chains are written again under
+    every named type that leads back to them): quadratic, tight to within 1, and NO linear bound in the number of nodes holds: a
+    19-node graph regenerates a document of depth 129 that the text reader (and serde_json: known finding KF4) refuses *)
+Require Import JsonReadDepth.
+Theorem C09_regen_text_graph_bound :
+  forall (g : schema_mut) (fuel : nat),
+  SchemaJsonDefs.wf_graph g ->
+  graph_utf8 g ->
+  SchemaJsonGuard.json_fuel g <= fuel ->
+  depth_bound g < SERDE_JSON_DEPTH ->
+  exists (j : json) (g' : schema_mut),
+  schema_json fuel g = Ok (json_text j) /\
+  json_wf j = true /\
+  parse_schema_text (json_text j) = Ok g' /\
+  (forall w : list bytes, ws_ok w -> parse_schema_text (json_text_ws w j) = Ok g') /\
+  (forall (fuel' : nat) (t : bytes), canonical_form fuel' g = Ok t -> canonical_form fuel' g' = Ok t) /\
+  (forall (fuel' : nat) (t : bytes), fingerprint fuel' g = Ok t -> fingerprint fuel' g' = Ok t) /\
+  (forall n : nat, SchemaJsonDefs.unfold n g' 0 = SchemaJsonDefs.unfold n g 0).
+Proof. exact C09_regen_text_graph. Qed.
+
+Theorem C09_document_depth_bound :
+  forall (g : schema_mut) (fuel : nat) (j : json) (st' : jstate),
+  to_json fuel g 0 None (SchemaJsonGuard.j_init g) = Ok (j, st') -> json_depth j <= depth_bound g.
+Proof. exact doc_depth_bound. Qed.
+
+Theorem C09_no_linear_depth_bound :
+  forall K C : nat,
+  K * 19 + C < SERDE_JSON_DEPTH ->
+  ~ (forall (g : list mnode) (fuel : nat), K * length g + C < SERDE_JSON_DEPTH -> doc_depth_ok fuel g).
+Proof. exact doc_depth_ok_linear_refuted_gen. Qed.
+
+
+Check nineteen_nodes_too_deep.
+Check depth_bound_tight.
+Check deep_graph_roundtrip.
+Check doc_depth_ok_small.       (* every graph of at most 18 nodes is fine *)
